@@ -200,6 +200,7 @@ def run(ctx: Ctx) -> None:
         miniblock.tie_all(ctx, drv, quick)
         from . import pipeline
         pipeline.tie_full(ctx, drv, 2000 if quick else 50000, ref=True)      # maps of definitions and of everything after them
+        pipeline.tie_full(ctx, drv, 2000 if quick else 50000, table=True)     # all eleven block rules: the table rule in the main chain and as a terminator (driver `fullparset`)
     finally:
         drv.close()
     ctx.partial += [
